@@ -364,6 +364,15 @@ class Inliner:
                 tail = [ast.Assign(targets=st.targets, value=ast.Constant(value=None))]
             else:
                 tail = [ast.Return(value=ast.Constant(value=None))]
+        # `a, b = helper()` where every result is a literal tuple: bind the targets where the result is produced
+        if structured and kind == "assign" and len(st.targets) == 1 and isinstance(st.targets[0], ast.Tuple) and all(isinstance(t, ast.Name) for t in st.targets[0].elts):
+            tnames = [t.id for t in st.targets[0].elts]
+            rsts = [n for b_ in body for n in ast.walk(b_) if isinstance(n, ast.Assign) and len(n.targets) == 1 and isinstance(n.targets[0], ast.Name) and n.targets[0].id == ret]
+            if rsts and all(isinstance(n.value, ast.Tuple) and len(n.value.elts) == len(tnames) and
+                            not any(isinstance(k, ast.Name) and k.id in tnames for k in ast.walk(n.value)) for n in rsts):
+                for n in rsts:
+                    n.targets = [ast.Tuple(elts=[ast.Name(id=t, ctx=ast.Store()) for t in tnames], ctx=ast.Store())]
+                tail = []
         out += body + tail
         for n in out:
             ast.copy_location(n, st) if not hasattr(n, "lineno") else None
